@@ -503,7 +503,10 @@ def semHandle (st : DState) (ws : List String) : Option String :=
     -- C17: the verified static matcher (Thm/C17c.lean flat_sound): `flat` = the definition is inside the straight-line fragment,
     -- `match` = the dissector program walks every canonical encoding of it exactly (all values, by the theorem)
     match st.wsprogs.get? name, st.corpus.get? key with
-    | some p, some (_, c) => some s!"flat={if Wireshark.isFlat c then 1 else 0} match={if Wireshark.flatMatches c p then 1 else 0}"
+    | some p, some (_, c) =>
+      let m0 := Wireshark.flatMatchesDir { s2c := false } c p
+      let m1 := Wireshark.flatMatchesDir { s2c := true } c p
+      some s!"flat={if Wireshark.isFlat c then 1 else 0} match={if Wireshark.flatMatches c p then 1 else 0} c2s={if m0 then 1 else 0} s2c={if m1 then 1 else 0}"
     | none, _ => some "nows"
     | _, none => some "nokey"
   | ["trace", key, hex] =>
